@@ -70,13 +70,13 @@ def has_s3(repo, cfg, store):
 class World:
     """1..n repositories with configs inside one sandbox"""
 
-    def __init__(self, rng, nrepos=1, settings=None, extra_lines=None, select_all=False, name="sb"):
+    def __init__(self, rng, nrepos=1, settings=None, extra_lines=None, select_all=False, name="sb", urls=None):
         self.rng = rng
         self.repos = []
         self.cfgs = {}
         self.lines = []
         for i in range(nrepos):
-            repo = upstream.gen_repo(rng, url=URLS[i])
+            repo = upstream.gen_repo(rng, url=(urls or URLS)[i])
             self.repos.append(repo)
             lines, cfg = scenario.gen_config_for(rng, repo, select_all=select_all)
             self.lines += lines
